@@ -124,6 +124,23 @@ theorem json_string_roundtrip (indent : Nat) (s : List Char) :
 
 example : encodeJson 0 (JV.str ['a', '"', '\n', '\x7f', 'é']) = "\"a\\\"\\n\\u007fé\"".toList := by decide
 
+/-- `colorjson.writeIndent` / `writeIndentInternal` (the loop that doubles the indentation by copying
+    the tail of the encoder's buffer): whatever the buffer holds and for every depth, exactly a line
+    feed and `depth` spaces (or tabs) are appended. -/
+theorem indent_exact (tab : Bool) (buf : List Char) (depth : Nat) :
+    writeIndentBuf tab buf depth = buf ++ '\n' :: List.replicate depth (if tab then '\t' else ' ') :=
+  writeIndentBuf_spec tab buf depth
+
+example : writeIndentBuf false "[1,".toList 70 = "[1,".toList ++ '\n' :: List.replicate 70 ' ' := by decide
+
+/-- indented output at arbitrary depth: an integer of any size inside `k` nested arrays, printed with
+    any indent width, reads back to the value (the indentation is pure white space at every level) -/
+theorem json_nested_roundtrip (indent k : Nat) (n : Int) :
+    parseJson (encodeJson indent (nestArr k (JV.int n))) = some (nestArr k (JV.int n)) :=
+  parseJson_nest indent n k
+
+example : encodeJson 2 (nestArr 2 (JV.int (-7))) = "[\n  [\n    -7\n  ]\n]".toList := by decide
+
 /-! ### dump.go: addresses, completeness, truncation (the model of dumpEx) -/
 
 /-- Every hex cell of a dumped value is the root buffer's byte at the address printed for its row
